@@ -88,6 +88,8 @@ def pinned_grid(ctx):
     # quadratic forms: PSD / NSD with mixed-sign off-diagonal entries
     mats = [np.array([[2., -1.], [-1., 2.]]), np.array([[2., 1.], [1., 2.]]), np.array([[1., 0.], [0., 4.]]),
             np.array([[4., -2., 0.], [-2., 5., 1.], [0., 1., 3.]])]
+    # non-symmetric matrices: x'Qx only depends on the symmetric part (an indefinite symmetric part must be refused)
+    mats = mats + [np.array([[2., 2.], [0., 2.]]), np.array([[2., 0.], [3., 2.]]), np.array([[3., -1., 0.], [1., 2., 2.], [0., -2., 4.]])]
     for Q in mats:
         k = Q.shape[0]
         xx = np.array([1.0, 2.0, -1.0])
@@ -101,6 +103,20 @@ def pinned_grid(ctx):
             v = npf(x0 if outk != 'elem' else x0[1:2])
             truth = float(np.sum(mult * np.asarray(v))) + 0.5
             pinned(ctx, '%s(mult=%g)' % (name, mult), lambda x, b=build, a=arg, mult=mult: mult * b(a(x)) + 0.5, truth, convex=(sign == 1), x0=x0)
+
+
+def quad_indefinite_refused(ctx):
+    """a matrix whose quadratic form is indefinite (although its lower triangle alone looks definite) is not a convex atom"""
+    import rsome as rso
+    from rsome import ro
+    for Q in (np.array([[1., 10.], [0., 1.]]), np.array([[1., 0.], [-6., 1.]]), np.array([[-1., 4.], [0., -1.]])):
+        ctx.search_cases += 1; ctx.evaluations += 1
+        m = ro.Model(); x = m.dvar(2)
+        try:
+            rso.quad(x, Q)
+            ctx.hit('indefinite-quadratic-form-accepted', {"Q": Q.tolist()}, {"pinned": "quad(indefinite)", "Q": Q.tolist()})
+        except ValueError:
+            ctx.count('pinned:ok:quad-indefinite-refused')
 
 
 def sample_better(ctx, d, val, xs, nsamp=4000):
@@ -138,6 +154,7 @@ def run(ctx):
     C.run_difftest(ctx, 'test_atoms_ipcone.py', ctx.n(60, 1500), 'atom encodings G/T/C (p-norm, power, gmean via IPCone)')
     C.run_difftest(ctx, 'test_det_model.py', ctx.n(60, 1200), 'whole deterministic do_math(): several atoms, rows, bounds, vtypes, affine/atom objective')
     pinned_grid(ctx)
+    quad_indefinite_refused(ctx)
     for k in range(ctx.n(120, 2500)):
         seed = int(ctx.rng.integers(2 ** 31))
         r = np.random.default_rng(seed)
